@@ -99,10 +99,10 @@ fn fd_classify(cfg_id: u8) {
     kani::cover!(live, "classified live");
     kani::cover!(dead && has_window, "classified dead with a window");
     assert!(live != dead, "C12: member must be in exactly one of live / dead after an evaluation");
-    assert!(live == alive_expected, "C10: classification differs from phi <= phi_threshold (undefined phi => dead)");
+    assert!(live == alive_expected, "C10/C11/C12: classification differs from phi <= phi_threshold (undefined phi => dead)");
     if dead && was_dead { assert!(*fd.dead_nodes.get(&id).unwrap() == old_death, "C12: time of death overwritten while continuously dead"); }
     if dead && !was_dead { assert!(*fd.dead_nodes.get(&id).unwrap() == vtime::Instant::now(), "C12: time of death is not the evaluation instant"); }
-    if dead && has_window { assert!(fd.node_samples.get(&id).unwrap().intervals.len() == 0, "C11: sampling window not cleared while dead"); }
+    if dead && has_window { assert!(fd.node_samples.get(&id).unwrap().intervals.len() == 0, "C10/C11: sampling window not cleared while dead"); }
     std::mem::forget(fd);
 }
 
